@@ -2,7 +2,7 @@
 From Coq Require Import NArith ZArith List String.
 From BU Require Import Base.Exn Base.Val Base.Bytes Gen.Consts Extract.ApiCommon.
 From BU Require Import Model.Codecs.
-From BU Require Model.IntBytes Model.ConvertBits Model.Scale.
+From BU Require Model.IntBytes Model.ConvertBits Model.Scale Model.Cbor.
 Import ListNotations.
 Open Scope string_scope.
 
@@ -20,6 +20,15 @@ Definition ropt (r : res (option (list N))) : res val :=
 
 Definition opt_text (v : val) : option (option (list N)) :=
   match v with VL [] => Some None | VL [VB c] => Some (Some c) | _ => None end.
+
+Fixpoint vals_Z (l : list val) : option (list Z) :=
+  match l with
+  | [] => Some []
+  | VZ z :: t => option_map (cons z) (vals_Z t)
+  | _ => None
+  end.
+Definition item_val (i : Cbor.item) : val :=
+  match i with Cbor.CInt z => VZ z | Cbor.COther b => VL [VN b] end.
 
 Definition api (ask : string -> list val -> val) : list api_entry :=
   let blake := o_blake2b ask 64 in [
@@ -65,5 +74,9 @@ Definition api (ask : string -> list val -> val) : list api_entry :=
   ("scale_compact", fun a => match a with [VZ v] => rb (scale_compact_encode v) | _ => bad_call end);
   ("scale_bytes", fun a => match a with [VB b] => rb (scale_bytes_encode b) | _ => bad_call end);
   ("scale_compact_decode", fun a => match a with [VB b] =>
-      rmap (fun r => VL [VN (fst r); VB (snd r)]) (Scale.compact_decode b) | _ => bad_call end)
+      rmap (fun r => VL [VN (fst r); VB (snd r)]) (Scale.compact_decode b) | _ => bad_call end);
+  (* CBOR indefinite-length array: ints as VZ, other items as ( n<first byte> ) *)
+  ("cbor_encode", fun a => match a with [VL l] =>
+      match vals_Z l with Some zs => Ok (VB (cbor_encode zs)) | None => bad_call end | _ => bad_call end);
+  ("cbor_decode", fun a => match a with [VB b] => rmap (fun l => VL (map item_val l)) (cbor_decode b) | _ => bad_call end)
 ].
